@@ -602,9 +602,27 @@ class Run:
                 self.log.add("add-config", op["cmd"]["t"], op["cmd"].get("l"))
             elif name == "add":
                 cmd, tup = make_cmd(op["cmd"])
-                sb.sb_commands.add_command(cmd)
-                expected.append(tup)
-                self.log.add("add", op["cmd"]["t"], op["cmd"].get("l"))
+                how = op.get("how", "api")
+                if how == "append":
+                    sb.sb_commands.commands.append(cmd)  # the command list is a public attribute: edited in place
+                    expected.append(tup)
+                elif how == "replace" and expected:
+                    i = op.get("at", 0) % len(expected)
+                    sb.sb_commands.commands[i] = cmd
+                    expected[i] = tup
+                elif how == "insert":
+                    i = op.get("at", 0) % (len(expected) + 1)
+                    sb.sb_commands.insert_command(i, cmd)
+                    expected.insert(i, tup)
+                elif how == "set":
+                    lst = list(sb.sb_commands.commands) + [cmd]
+                    sb.sb_commands.set_commands(lst)
+                    lst.clear()  # the caller's list is the caller's
+                    expected.append(tup)
+                else:
+                    sb.sb_commands.add_command(cmd)
+                    expected.append(tup)
+                self.log.add("add", how, op["cmd"]["t"], op["cmd"].get("l"))
             elif name == "tick":
                 CLOCK.advance(op["us"])
             elif name == "export":
@@ -942,7 +960,8 @@ def gen_plan(family: str, i: int, rng: random.Random, tier: str) -> dict:
                 ops.append({"op": "export"})
             elif r < 0.75:
                 for _j in range(rng.randint(1, 3)):
-                    ops.append({"op": "add", "cmd": gen_cmd(rng)})
+                    # between two exports the command list is changed through the API or edited in place
+                    ops.append({"op": "add", "cmd": gen_cmd(rng), "how": rng.choice(["api", "api", "append", "replace", "insert", "set"]), "at": rng.randrange(8)})
                 ops.append({"op": "export"})
             elif r < 0.85:
                 ops.append({"op": "tick", "us": rng.choice([1, 1_000_000, 3_600_000_000])})
